@@ -61,6 +61,21 @@ static int sweep()
         if ( !ok ) { std::printf( "REPRODUCED: Read By Type %04x..%04x type %04x ->", start, end, type ); for ( std::size_t i = 0; i < os && i < 23; ++i ) std::printf( " %02x", out[ i ] );
                      std::printf( "   expected handles:" ); for ( unsigned h : expected ) std::printf( " %04x", h ); std::printf( "\n" ); return 1; }
     }
+
+    // Find Information for every range: every returned handle lies in start..end, ascending; Attribute Not Found only if no attribute lies in the range
+    for ( unsigned start = 1; start <= 0x48; ++start ) for ( unsigned end = start; end <= 0x48; ++end ) {
+        const std::uint8_t req[] = { 0x04, std::uint8_t( start ), std::uint8_t( start >> 8 ), std::uint8_t( end ), std::uint8_t( end >> 8 ) };
+        std::uint8_t out[ 24 ]; out[ 23 ] = 0xEE; std::size_t os = 23;
+        srv.l2cap_input( req, sizeof req, out, os, c );
+        std::vector< unsigned > in_range; for ( auto& t : table ) if ( t.first >= start && t.first <= end ) in_range.push_back( t.first );
+        bool ok = out[ 23 ] == 0xEE && os <= 23;
+        if ( os >= 2 && out[ 0 ] == 0x05 ) {
+            const std::size_t tuple = out[ 1 ] == 1 ? 4 : 18; unsigned last = 0;
+            for ( std::size_t p = 2; ok && p + tuple <= os; p += tuple ) { const unsigned h = out[ p ] | ( out[ p + 1 ] << 8 ); ok = h > last && h >= start && h <= end && std::find( in_range.begin(), in_range.end(), h ) != in_range.end(); last = h; }
+        } else ok = ok && os == 5 && out[ 0 ] == 0x01 && out[ 4 ] == 0x0a && in_range.empty();
+        if ( !ok ) { std::printf( "REPRODUCED: Find Information %04x..%04x ->", start, end ); for ( std::size_t i = 0; i < os && i < 23; ++i ) std::printf( " %02x", out[ i ] );
+                     std::printf( "   handles in the range:" ); for ( unsigned h : in_range ) std::printf( " %04x", h ); std::printf( "\n" ); return 1; }
+    }
     return 0;
 }
 struct gap_conn_t : srv_gap_t::connection_data {
